@@ -5,7 +5,8 @@ set -u
 PATCH=$1; shift
 cd /verif
 git -C /repo apply "$PATCH" || { echo "patch does not apply"; exit 2; }
-trap 'git -C /repo checkout -- . ; rm -f /verif/replays/*seededtmp*' EXIT
+# (rebuild after restoring: tools that use target/sim/hdsim directly must never find a binary built from a changed tree)
+trap 'git -C /repo checkout -- . ; rm -f /verif/replays/*seededtmp*; (cd /verif/sim && cargo build --offline --profile sim >/dev/null 2>&1)' EXIT
 for P in "$@"; do
   VERIF_REPLAY_TAG=seeded ./check $P ${MODE:-quick} 2>&1 | grep -E "^(VIOLATION|  rule=|hdsim:|KNOWN)" | cut -c1-400
 done
